@@ -22,6 +22,7 @@ ROOT = os.path.dirname(os.path.dirname(os.path.abspath(__file__)))
 sys.path.insert(0, ROOT)
 
 REPO = os.environ.get("VERIF_REPO", "/repo")
+OPS2 = bool(os.environ.get("SWEEP_OPS2"))
 DEFAULT_FILES = ["mofun/atoms.py", "mofun/mofun.py", "mofun/helpers.py", "mofun/detect_bonds.py", "mofun/rough_uff.py",
                  "mofun/cli/mofun_cli.py"]
 
@@ -151,12 +152,78 @@ def gen_mutants(rel, src):
                 out.append({"file": rel, "func": q, "line": node.lineno, "op": "stmt:delete", "old": ast.unparse(node)[:120], "new": "pass", "src": text})
             except SyntaxError:
                 pass
+        elif isinstance(node, ast.Attribute) and node.attr == "T" and OPS2:
+            emit(node, copy.deepcopy(node.value), "attr:drop-T")
+        elif isinstance(node, ast.Attribute) and OPS2 and any(k in node.attr for k in ("bond", "angle", "dihedral", "improper")) and isinstance(node.value, ast.Name):
+            for a_, b_ in (("bond", "angle"), ("angle", "dihedral"), ("dihedral", "improper"), ("improper", "bond")):
+                if a_ in node.attr:
+                    n2 = copy.deepcopy(node)
+                    n2.attr = node.attr.replace(a_, b_)
+                    emit(node, n2, "attr:kind-%s->%s" % (a_, b_))
+                    break
+        elif isinstance(node, ast.keyword) and node.arg == "axis" and OPS2 and isinstance(node.value, ast.Constant) and node.value.value in (0, 1):
+            pass
+        elif isinstance(node, (ast.Break, ast.Continue)) and OPS2:
+            a, b = span(node)
+            text = (bsrc[:a] + (b"continue" if isinstance(node, ast.Break) else b"break") + bsrc[b:]).decode()
+            try:
+                ast.parse(text)
+                out.append({"file": rel, "func": q, "line": node.lineno, "op": "stmt:break<->continue", "old": type(node).__name__, "new": "swapped", "src": text})
+            except SyntaxError:
+                pass
         elif isinstance(node, ast.Subscript) and isinstance(node.slice, ast.Slice):
             sl = node.slice
             if sl.lower is not None and sl.upper is not None:
                 n2 = copy.deepcopy(node)
                 n2.slice.lower, n2.slice.upper = n2.slice.upper, n2.slice.lower
                 emit(node, n2, "slice:swap-bounds")
+    if OPS2:
+        # second operator set: use of a sibling variable - names bound together in one tuple target (for i, j in ..; a, b = ..) are exchanged at ONE use site;
+        # adjacent independent simple statements are exchanged
+        for fnode in [n for n in ast.walk(tree) if isinstance(n, (ast.FunctionDef, ast.AsyncFunctionDef))]:
+            groups = []
+            for n in ast.walk(fnode):
+                tg = None
+                if isinstance(n, (ast.For, ast.comprehension)):
+                    tg = n.target
+                elif isinstance(n, ast.Assign) and len(n.targets) == 1:
+                    tg = n.targets[0]
+                if isinstance(tg, ast.Tuple) and all(isinstance(e, ast.Name) for e in tg.elts) and 2 <= len(tg.elts) <= 4:
+                    groups.append([e.id for e in tg.elts])
+            pos_params = [a.arg for a in fnode.args.args if a.arg not in ("self", "cls")]
+            for i_ in range(len(pos_params) - 1):
+                groups.append([pos_params[i_], pos_params[i_ + 1]])
+            done = set()
+            for g in groups:
+                for x, y in zip(g, g[1:]):
+                    if (x, y) in done:
+                        continue
+                    done.add((x, y))
+                    uses = [n for n in ast.walk(fnode) if isinstance(n, ast.Name) and isinstance(n.ctx, ast.Load) and n.id == x]
+                    for u in uses[:3]:
+                        n2 = ast.Name(id=y, ctx=ast.Load())
+                        a, b = span(u)
+                        text = (bsrc[:a] + y.encode() + bsrc[b:]).decode()
+                        try:
+                            ast.parse(text)
+                            out.append({"file": rel, "func": encl.get(u, ""), "line": u.lineno, "op": "name:%s->%s" % (x, y), "old": x, "new": y, "src": text})
+                        except SyntaxError:
+                            pass
+            for n in ast.walk(fnode):
+                body = getattr(n, "body", None)
+                if not isinstance(body, list):
+                    continue
+                for s1, s2 in zip(body, body[1:]):
+                    if isinstance(s1, (ast.Assign, ast.Expr, ast.AugAssign)) and isinstance(s2, (ast.Assign, ast.Expr, ast.AugAssign)) and s1.end_lineno + 1 >= s2.lineno \
+                            and s1.col_offset == s2.col_offset and s1.lineno == s1.end_lineno and s2.lineno == s2.end_lineno:
+                        a1, b1 = span(s1)
+                        a2, b2 = span(s2)
+                        text = (bsrc[:a1] + bsrc[a2:b2] + bsrc[b1:a2] + bsrc[a1:b1] + bsrc[b2:]).decode()
+                        try:
+                            ast.parse(text)
+                            out.append({"file": rel, "func": encl.get(s1, ""), "line": s1.lineno, "op": "stmt:swap-adjacent", "old": ast.unparse(s1)[:60], "new": ast.unparse(s2)[:60], "src": text})
+                        except SyntaxError:
+                            pass
     return out
 
 
@@ -219,6 +286,8 @@ def main():
     for rel in a.files.split(","):
         src = open(os.path.join(REPO, rel)).read()
         muts.extend(gen_mutants(rel, src))
+    if os.environ.get("SWEEP_ONLY2"):
+        muts = [m for m in muts if m["op"].startswith(("attr:", "name:", "stmt:swap", "stmt:break"))]
     if a.limit:
         muts = muts[:a.limit]
     print("mutants generated:", len(muts), flush=True)
